@@ -126,6 +126,17 @@ def _check_require_part(setting_name, setting_value):
     _check_repeated_values(setting_name, setting_value)
 
 
+def _check_skip_tokens(setting_name, setting_value):
+    """Raises if the provided list of tokens contains anything but strings"""
+    invalid_values = [value for value in setting_value if not isinstance(value, str)]
+    if invalid_values:
+        raise SettingValidationError(
+            '"{}" setting must be a list of "str", it contains: {}'.format(
+                setting_name, ", ".join(map(repr, invalid_values))
+            )
+        )
+
+
 def _check_parsers(setting_name, setting_value):
     """Returns `True` if the provided list of parsers contains valid values"""
     existing_parsers = [
@@ -226,6 +237,7 @@ def check_settings(settings):
         "SKIP_TOKENS": {
             # "values" can take unlimited options
             "type": list,
+            "extra_check": _check_skip_tokens,
         },
         "NORMALIZE": {"type": bool},
         "RETURN_TIME_AS_PERIOD": {"type": bool},
